@@ -72,6 +72,11 @@ var LineDeviations = []Deviation{
 	{"tag-DATE", func(l *Line) { l.Tag = "DATE" }},
 	{"tag-custom", func(l *Line) { l.Tag = "_X" }},
 	{"tag-digits", func(l *Line) { l.Tag = "1" }},
+	{"tag-lowercase", func(l *Line) { l.Tag = "note" }},
+	{"tag-mixed-case", func(l *Line) { l.Tag = "Name" }},
+	{"tag-lowercase-indi", func(l *Line) { l.Tag = "indi"; l.Xref = "@I1@ " }},
+	{"tag-lowercase-cont", func(l *Line) { l.Tag = "cont" }},
+	{"value-percent", func(l *Line) { l.Value = "100% %s %d%" }},
 	{"value-empty", func(l *Line) { l.Sep2 = ""; l.Value = "" }},
 	{"value-empty-trailing-space", func(l *Line) { l.Sep2 = " "; l.Value = "" }},
 	{"value-padded", func(l *Line) { l.Value = " v " }},
